@@ -183,3 +183,6 @@ determine_demultiplex_mode.specs.append(_mode_spec)
 def extra_checks(res, tier, seed, known, log):
     from pyvc import runner
     runner.cli_grid(res, "C15", tier, seed, known)
+    # CombinatorialDemultiplexer._open_writers (itertools.product, pair keys) is not under a static contract: runtime form
+    runner.runtime_standin(res, "C15", "cdemux", "combinatorial_open_writers", seed, 3000 if tier == "quick" else 40000, 60 if tier == "quick" else 300,
+                           label="CombinatorialDemultiplexer._open_writers: a writer for every name combination on the path named after it (bounded)")
